@@ -576,7 +576,9 @@ def directed_cases():
     return out
 
 
-def gen_cases(rng, tier, n):
+def gen_cases(rng, tier, n, directed=True):
+    if not directed:        # search / deepening streams: the directed histories were run by the main stream
+        return [gen_case(rng, tier, i) for i in range(n)]
     fixed = random.Random(20260926)
     scoped = [gen_scoped_case(fixed, tier, -1, force_clash=True) for _ in range(30)]
     return directed_cases() + scoped + [gen_case(rng, tier, i) for i in range(n)]
@@ -674,15 +676,27 @@ def announce(cases):
     return cases
 
 
+BATCH = 256
+
+
 def run_impl(case):
-    if _pending:
-        batch = list(_pending)
-        del _pending[:]
-        prim_table()
-        with concurrent.futures.ThreadPoolExecutor(N_WORKERS) as ex:
-            for c, r in zip(batch, ex.map(_safe_run, batch)):
-                _results[_key(c)] = r
-    r = _results.pop(_key(case), None)
+    k = _key(case)
+    if _pending and k not in _results:
+        # run the announced cases concurrently, a bounded batch at a time (the caller may stop asking — time budget —
+        # long before the announced stream is exhausted), up to and including the case asked for
+        # (cases are asked for in the order they were announced: what precedes the one asked for was announced by a
+        # stream the caller abandoned and is dropped; a case that was never announced is simply run now)
+        idx = next((i for i, c in enumerate(_pending) if c is case), None)
+        if idx is None:
+            idx = next((i for i, c in enumerate(_pending) if _key(c) == k), None)
+        if idx is not None:
+            batch = list(_pending[idx:idx + BATCH])
+            del _pending[:idx + BATCH]
+            prim_table()
+            with concurrent.futures.ThreadPoolExecutor(N_WORKERS) as ex:
+                for c, r in zip(batch, ex.map(_safe_run, batch)):
+                    _results[_key(c)] = r
+    r = _results.pop(k, None)
     if r is None:
         r = run_impl_now(case)
     if isinstance(r, Exception):
@@ -695,6 +709,108 @@ def _safe_run(case):
         return run_impl_now(case)
     except Exception as e:   # re-raised in run_impl so that core records it per case
         return e
+
+
+# ------------------------------------------------------------------ the bridge to concrete declarations (Sem/WorldDecl.lean)
+
+# tags whose field object harness/dump.py maps to a FieldDecl of Sem/Validate (formatted strings, DecimalNumber and
+# the date/time fields stay opaque here: C01/C02 own them)
+DECL_TAGS = [0, 1, 2, 3, 4, 5, 6, 7, 8, 9, 10, 11, 13, 14, 15, 16, 17, 28, 29]
+_decl_table = None
+
+
+def decl_table():
+    """tag -> (FieldDecl json, [valid0, valid1, invalid] value jsons, default value json or None), dumped from the
+    REAL field objects and values of the executor's vocabulary"""
+    global _decl_table
+    if _decl_table is None:
+        from .. import dump
+        P, _ = X._prims()
+        t = {}
+        for tag in DECL_TAGS:
+            try:
+                f = P[tag][0](False)
+                if not hasattr(f, "__set__"):
+                    f = f()             # a field-factory function
+                d = dump.dump_field(f)
+                vals = [dump.dump_value(P[tag][i]) for i in (1, 2, 3)]
+                dflt = dump.dump_value(P[tag][4]) if P[tag][4] is not None else None
+                if '"x"' in json.dumps([d, vals]) and "opaque" in json.dumps([d, vals]):
+                    continue
+                t[tag] = (d, vals, dflt)
+            except Exception:
+                continue
+        _decl_table = t
+    return _decl_table
+
+
+def _inst(name):
+    return {"o": [name, []]}
+
+
+def decl_value(f, which, types):
+    """wire value of the `which`-th value the executor uses for field f (0 / 1 valid, 2 invalid), or None"""
+    k = f["kind"]
+    if "prim" in k:
+        row = decl_table().get(k["prim"])
+        return None if row is None else row[1][which]
+    if "wrap" in k:
+        if which == 2:
+            return None
+        v = _inst("U#%d" % k["wrap"])
+    elif "refs" in k:
+        if which == 2:
+            return None
+        return {"l": [_inst("#%d" % r) for r in k["refs"]]}
+    else:
+        if which == 2:
+            return None
+        v = _inst("#%d" % k["ref"])
+    return {"l": [v]} if k.get("arr") else v
+
+
+def decl_block(case, impl):
+    """concrete probes for the classes whose fields all have a declaration: the executor's probe argument sets
+    (by name) rebuilt as wire values, with the real constructor's verdict taken from the fingerprint"""
+    hist = impl.get("hist") or {}
+    if (hist.get("world") or {}).get("flags") != FLAGS:
+        return None, {}
+    srcs = srcs_of(case)
+    table = decl_table()
+    probes, expect = [], {}
+    for c in class_ids(case)[:3]:
+        fp = (hist.get("fp") or {}).get(str(c))
+        if not fp or c not in srcs:
+            continue
+        try:
+            fields = flat_fields(srcs, c)
+        except KeyError:
+            continue
+        if any("prim" in f["kind"] and f["kind"]["prim"] not in table for f in fields):
+            continue
+        real = {}
+        for ent in fp.get("accept", []):
+            real[ent[0]] = "ok" if (len(ent) == 2 and isinstance(ent[1], dict)) else ent[1]
+        v0 = [[f["name"], decl_value(f, 0, case["types"])] for f in fields]
+        v1 = [[f["name"], decl_value(f, 1 if "prim" in f["kind"] else 0, case["types"])] for f in fields]
+        cand = [("valid0", v0), ("valid1", v1), ("extra", v0 + [["zz_extra", 1]]), ("empty", [])]
+        for f in fields:
+            n = f["name"]
+            cand.append(("missing:" + n, [kv for kv in v0 if kv[0] != n]))
+            if "prim" in f["kind"]:
+                cand.append(("alt1:" + n, [[a, (decl_value(f, 2, None) if a == n else b)] for a, b in v0]))
+                cand.append(("alt2:" + n, [[a, (decl_value(f, 1, None) if a == n else b)] for a, b in v0]))
+        for name, kw in cand:
+            if name not in real or real[name] == "skip" or any(v is None for _, v in kw):
+                continue
+            probes.append({"c": c, "name": name, "kw": kw})
+            expect[(c, name)] = real[name]
+    if not probes:
+        return None, {}
+    block = {"prims": [[str(t), row[0]] for t, row in sorted(table.items())],
+             "defaults": [[str(t), row[2]] for t, row in sorted(table.items()) if row[2] is not None],
+             "probes": probes}
+    return block, expect
 
 
 # ------------------------------------------------------------------ wire
@@ -800,7 +916,11 @@ def line(case, impl):
                     o["kw"] = valid_args(srcs, op["c"], op.get("probe") or "valid", pre)
                     o["pre"] = pre
             ops.append(o)
-    return {"suite": "world", "ops": ops, "closures": impl.get("closures", {})}
+    out = {"suite": "world", "ops": ops, "closures": impl.get("closures", {})}
+    block, _ = decl_block(case, impl)
+    if block:
+        out["decl"] = block
+    return out
 
 
 # ------------------------------------------------------------------ judging
@@ -900,6 +1020,17 @@ def judge(case, impl, model):
                 msgs.append(f"step {i} toSchema c={op['c']}: schema 'required' = {rs['schemaRequired']} real, {sorted(ms.get('keys', []))} model")
             if "err" not in rs and bool(ms.get("wrote")) != bool(rs.get("wrote")):
                 msgs.append(f"step {i} toSchema c={op['c']}: wrote _required real={rs.get('wrote')} model={ms.get('wrote')}")
+    # ---- the declaration assembled from the model's VIEW, run through Sem/Validate on the concrete probe arguments,
+    #      against the real constructor (accept / reject and exception class)
+    if model.get("declResults"):
+        _, expect = decl_block(case, impl)
+        for r in model["declResults"]:
+            want = expect.get((r.get("c"), r.get("name")))
+            if want is None or r.get("res") in ("outside", "undefined"):
+                continue
+            if r["res"] != want:
+                msgs.append(f"class {r['c']} ({case_name(case, r['c'])}) probe {r['name']}: real constructor {want}, "
+                            f"Sem/Validate on the declaration assembled from the model's view {r['res']}")
     mw = model.get("world", {})
     if mw and mw.get("counter") != hist["world"]["counter"]:
         msgs.append(f"StructureReference.counter real={hist['world']['counter']} model={mw.get('counter')}")
